@@ -1330,7 +1330,16 @@ func (r *Run) quiet() {
 		sessions = append(sessions, s.ClientID)
 		return true
 	})
-	r.Rec.Log(inproc.Event{"e": "view", "subs": subs, "online": online, "sessions": sessions})
+	retained := []map[string]interface{}{}
+	srv.RetainedService().Iterate(func(m *gmqtt.Message) bool {
+		tag := string(m.Payload)
+		if i := strings.IndexByte(tag, '.'); i >= 0 {
+			tag = tag[:i]
+		}
+		retained = append(retained, map[string]interface{}{"t": m.Topic, "tag": tag, "q": int(m.QoS)})
+		return true
+	})
+	r.Rec.Log(inproc.Event{"e": "view", "subs": subs, "online": online, "sessions": sessions, "retained": retained})
 }
 
 // WriteTrace appends the events as ndjson lines.
